@@ -27,9 +27,14 @@ type logEnt struct {
 	id    int
 }
 
+var sockWorldOpts func(*config.ServerOptions)
+
 func newSockWorld(tn string, eio string) *sockWorld {
 	opts := config.DefaultServerOptions()
 	opts.SetAllowEIO3(true)
+	if sockWorldOpts != nil {
+		sockWorldOpts(opts)
+	}
 	ps := newProtoServer(opts)
 	ctx, _ := newCtx("GET", "/engine.io/")
 	ctx.Query().Set("transport", tn)
